@@ -73,6 +73,15 @@ Definition csm_remove (k : ckey) (m : csm_t) : csm_t :=
 
 Definition csm_insert (k : ckey) (t : target) (m : csm_t) : csm_t := (k, t) :: csm_remove k m.
 
+Definition csm_remove_all (ks : list ckey) (m : csm_t) : csm_t :=
+  fold_left (fun acc k => csm_remove k acc) ks m.
+
+Definition addr_eqb (a b : N * Z) : bool := N.eqb (fst a) (fst b) && Z.eqb (snd a) (snd b).
+
+(** Keys of the entries whose server address is one of [gone]. *)
+Definition keys_at (gone : list (N * Z)) (m : csm_t) : list ckey :=
+  map fst (filter (fun e => existsb (addr_eqb (snd (snd e))) gone) m).
+
 Inductive phase :=
 | Running   (* inside [handle] *)
 | Exiting   (* [handle] returned on an error path while holding: guard already dropped,
@@ -94,11 +103,15 @@ Record env := mkEnv { key : cid -> ckey; tgt : sid -> target }.
     [cancel_drop_removes]: dropping the [Client] value that served a CancelRequest removes the
       entry of the key it carried (false for the code as it is; true before 1e593b9).
     [exit_entry_first]: on an error exit the entry is removed before the guard is dropped
-      (true for the code as it is; false before 1e593b9). *)
-Record variant := mkVariant { cancel_drop_removes : bool; exit_entry_first : bool }.
+      (true for the code as it is; false before 1e593b9).
+    [reload_prunes]: a configuration reload drops the map entries that point to an address
+      which left the configuration (false for the code as it is: [ConnectionPool::from_config],
+      pool.rs:312, only hands the map to the new [ServerPool]s; a mutant used to show that the
+      check notices such pruning). *)
+Record variant := mkVariant { cancel_drop_removes : bool; exit_entry_first : bool; reload_prunes : bool }.
 
-Definition v_repaired : variant := mkVariant false true. (* the code as it is (since 1e593b9) *)
-Definition v_orig : variant := mkVariant true false.     (* the code before 1e593b9: both defects *)
+Definition v_repaired : variant := mkVariant false true false. (* the code as it is (since 1e593b9) *)
+Definition v_orig : variant := mkVariant true false false.     (* the code before 1e593b9: both defects *)
 
 (** The variant the correspondence check runs the implementation against, and the one the
     main theorems of Props.v are stated for.  Change this one definition when /repo changes
@@ -126,6 +139,13 @@ Definition updg (f : ckey -> bool) (k : ckey) (x : bool) : ckey -> bool :=
 
 Definition back (clean : bool) : loc := if clean then Idle else Closed.
 
+(** The idle connections among [l] are gone; borrowed ones stay borrowed. *)
+Definition retire_sv (f : sid -> loc) (l : list sid) : sid -> loc :=
+  fun s => match f s with
+           | Idle => if existsb (Nat.eqb s) l then Closed else Idle
+           | x => x
+           end.
+
 Inductive op :=
 | Checkout (c : cid) (s : sid)          (* pool.get returned s to c; claim *)
 | ReleaseNormal (c : cid) (clean : bool) (* end of transaction: release(), then guard drop *)
@@ -135,7 +155,14 @@ Inductive op :=
                                             whole exit of a client that holds nothing *)
 | SrvClose (s : sid)                     (* an idle connection is closed (lifetime, idle timeout, ban) *)
 | Cancel (k : ckey)                      (* CancelRequest with key k: lookup (+ contact) *)
-| CancelDrop (k : ckey).                 (* the Client value that served that request is dropped *)
+| CancelDrop (k : ckey)                  (* the Client value that served that request is dropped *)
+| Reload (retired : list sid).           (* configuration reload (config.rs:1665 reload_config ->
+                                            pool.rs:312 from_config): the pools are rebuilt; the
+                                            connections in [retired] belong to a pool that was
+                                            replaced: the idle ones are never handed out again, the
+                                            borrowed ones stay with their borrower until it releases
+                                            them (the client keeps its clone of the old pool and the
+                                            guard); the map is not touched. *)
 
 Definition is_running (p : phase) : bool := match p with Running => true | _ => false end.
 Definition is_exiting (p : phase) : bool := match p with Exiting => true | _ => false end.
@@ -198,6 +225,13 @@ Definition step (E : env) (v : variant) (st : state) (o : op) : state :=
       if cancel_drop_removes v
       then mkState (csm_remove k (csm st)) (cl st) (sv st) (updg (gcancel st) k true)
       else st
+  | Reload retired =>
+      mkState (if reload_prunes v
+               then csm_remove_all (keys_at (map (fun s => snd (tgt E s)) retired) (csm st)) (csm st)
+               else csm st)
+              (cl st)
+              (retire_sv (sv st) retired)
+              (gcancel st)
   end.
 
 Definition run (E : env) (v : variant) (ops : list op) : state := fold_left (step E v) ops init.
